@@ -1,9 +1,9 @@
 CONSTANTS HW = 7
           Margins = {1, 2, 3, 4, 5, 6}
-          Anchors = {1, 2}
+          Anchors = {1, 2, 3}
           NMax = 6
-          MCMod = 48
-          GenMod = 48
+          MCMod = 120
+          GenMod = 120
           TPad = 2
 INIT Init
 NEXT EvalGen
